@@ -195,9 +195,10 @@ class NoPanic:
             return []
         P, W = self.P, self.W
         out = []
-        owner = P.fns.get(fn.path.rsplit("::{closure", 1)[0])
-        if owner is None:
+        sites = P.closure_sites(fn.path)
+        if not sites:
             return out
+        owner = sites[0][0]
         oev = W.ev(owner.path)
         for bb, t in owner.calls():
             if fn.path not in (t.get("closures") or []):
